@@ -45,6 +45,12 @@ pub fn build_cache(cfg: &Cfg, clock: &HClock, inst: &Arc<Instance>) -> CacheD<u6
             table[(*key as usize) % table.len()] + if ttl { TTL_ENTRY } else { 0 }
         }));
     }
+    if let WeightMode::ByValue(table) = &cfg.weight_mode {
+        let table = table.clone();
+        builder = builder.weight_calculation_fn(Box::new(move |key: &u64, value: &u64, ttl: bool| {
+            table[((*key + (*value & 0xffff)) as usize) % table.len()] + if ttl { TTL_ENTRY } else { 0 }
+        }));
+    }
     CacheD::new(builder.build())
 }
 
@@ -195,6 +201,9 @@ impl Exec {
         }
     }
 
+    /// The value the next write of `k` will carry.
+    fn peek_token(&self, k: u8) -> u64 { ((k as u64) << 40) | (self.token + 1) }
+
     fn next_token(&mut self, k: u8) -> u64 {
         self.token += 1;
         ((k as u64) << 40) | self.token
@@ -209,7 +218,9 @@ impl Exec {
             Ok(value) => Ok(value),
             Err(_) => {
                 let message = self.inst.panics().last().cloned().unwrap_or_default();
-                Err(Failure::new("C17", "C17/caller-panic", format!("{} panicked in the caller: {}", what, message)))
+                // a write entry point that panics did not behave as its own property says either
+                let also = if what.starts_with("put_or_update") { vec!["C08".to_string()] } else if what.starts_with("put") { vec!["C07".to_string()] } else if what.starts_with("delete") { vec!["C04".to_string()] } else { Vec::new() };
+                Err(Failure::new("C17", "C17/caller-panic", format!("{} panicked in the caller: {}", what, message)).with_also(also))
             }
         }
     }
@@ -685,7 +696,7 @@ impl Exec {
     fn issue_put(&mut self, k: u8, w: &Option<WSel>, ttl: &Option<TtlSel>) -> Check<Option<PendingCmd>> {
         let key = k as u64;
         let ttl = match ttl { Some(sel) => match self.resolve_ttl(sel) { Some(ttl) => Some(ttl), None => return Ok(None) }, None => None };
-        let weight = match w { Some(sel) => sel.resolve(self.cfg.max_weight), None => self.cfg.weight_fn(key, ttl.is_some()) };
+        let weight = match w { Some(sel) => sel.resolve(self.cfg.max_weight), None => self.cfg.weight_fn(key, self.peek_token(k), ttl.is_some()) };
         if ttl == Some(Duration::ZERO) { self.hold_sweeper(); }
         let physical = self.model.held.get(&k).cloned();
         if let Some(entry) = &physical {
@@ -780,7 +791,7 @@ impl Exec {
         if ttl == Some(Duration::ZERO) { self.hold_sweeper(); }
         let remove = *ttl_req == TtlReq::Remove;
         let explicit = w.as_ref().map(|sel| match (sel, self.model.held.get(&k)) { (WSel::Current, Some(entry)) => entry.weight, _ => sel.resolve(self.cfg.max_weight) });
-        let computed = if with_value { Some(self.cfg.weight_fn(key, ttl.is_some())) } else { None };
+        let computed = if with_value { Some(self.cfg.weight_fn(key, self.peek_token(k), ttl.is_some())) } else { None };
         let base = explicit.or(computed);
         let value = if with_value { Some(self.next_token(k)) } else { None };
         let now = self.model.now;
